@@ -1,17 +1,77 @@
 #!/usr/bin/env python3
-"""prints the markdown table of seeded changes from seeded/*/meta.json"""
+"""prints the markdown tables of seeded changes from seeded/*/meta.json:
+ breaking seeds (-s1, -s2, -s3): first measurement (check as it was when the seed arrived) and current result
+ (tools/reeval_seeds.py: meta["current"]); property-preserving changes (-b1..-b5): alarm or quiet."""
 import json, glob, os, re
 ROOT = os.path.dirname(os.path.dirname(os.path.abspath(__file__)))
-print("| seed | property | what the change is (from notes.md) | quick | thorough | remark |")
-print("|---|---|---|---|---|---|")
-for d in sorted(glob.glob(os.path.join(ROOT, "seeded", "*"))):
-    m = json.load(open(os.path.join(d, "meta.json")))
-    notes = open(os.path.join(d, "notes.md")).read() if os.path.exists(os.path.join(d, "notes.md")) else ""
-    first = ""
+
+
+def first_line(d):
+    p = os.path.join(d, "notes.md")
+    notes = open(p).read() if os.path.exists(p) else ""
     for line in notes.split("\n"):
         l = line.strip()
-        if l and not l.startswith("#") and len(l) > 40:
-            first = re.sub(r"\s+", " ", l)[:170]; break
-    q = "caught" if m["check_quick"]["caught"] else "missed"
-    t = "—" if m.get("check_thorough") is None else ("caught" if m["check_thorough"]["caught"] else "missed")
-    print(f"| {m['id']} | {m['property']} | {first} | {q} | {t} | {m.get('history','')[:260]} |")
+        if l and not l.startswith("#") and not l.startswith("```") and len(l) > 40:
+            return re.sub(r"\s+", " ", l).replace("|", "/")[:150]
+    return ""
+
+
+def verdict(q, t=None):
+    """q/t: dicts with alarm|caught, no_failing_input or a tail"""
+    def one(x):
+        if x is None:
+            return None
+        al = x.get("alarm", x.get("caught"))
+        nfi = x.get("no_failing_input")
+        if nfi is None:
+            nfi = "no-failing-input-found" in x.get("tail", "")
+        return (bool(al), bool(nfi))
+    a, b = one(q), one(t)
+    if a and a[0]:
+        return "quick: correspondence only" if a[1] else "quick: failing input"
+    if b and b[0]:
+        return "thorough only" + (" (correspondence only)" if b[1] else "")
+    return "MISSED"
+
+
+rows_s, rows_b = [], []
+for d in sorted(glob.glob(os.path.join(ROOT, "seeded", "*"))):
+    mp = os.path.join(d, "meta.json")
+    if not os.path.exists(mp):
+        continue
+    m = json.load(open(mp))
+    sid = os.path.basename(d)
+    cur = m.get("current")
+    if "-s" in sid:
+        hist = m.get("history", "")
+        first = verdict(m.get("check_quick", {}), m.get("check_thorough"))
+        if hist.startswith("MISSED by the first version of the quick tier"):
+            first = "thorough only (first version)"
+        elif hist.startswith("MISSED by the first version"):
+            first = "MISSED (first version)"
+        elif "MISSED" in hist.upper() and "first version" in hist.lower():
+            mm = re.search(r"quick (MISSED|caught[^,.;]*)[,;]? thorough (MISSED|caught)", hist)
+            first = ("MISSED" if mm and mm.group(1) == "MISSED" and mm.group(2) == "MISSED" else
+                     "thorough only" if mm and mm.group(1) == "MISSED" else first) + " (first version)"
+        elif "correspondence only" in hist.lower() and "first version" in hist.lower():
+            first = "quick: correspondence only (first version)"
+        now = "—"
+        if cur:
+            now = "ERROR: " + cur["error"][:60] if "error" in cur else verdict(cur.get("quick", {}), cur.get("thorough"))
+        rows_s.append(f"| {sid} | {first_line(d)} | {first} | {now} |")
+    else:
+        q = m.get("check_quick", {})
+        first = ("alarm" + (" (correspondence only)" if q.get("no_failing_input") else " WITH a 'failing input'")) if q.get("alarm") else "quiet"
+        now = "—"
+        if cur:
+            cq = cur.get("quick", {})
+            now = "ERROR" if "error" in cur else (("alarm" + (" (correspondence only)" if cq.get("no_failing_input") else " WITH a 'failing input'")) if cq.get("alarm") else "quiet")
+        rows_b.append(f"| {sid} | {first_line(d)} | {first} | {now} |")
+
+print("| seed | what the change is (from notes.md) | when it arrived | current checks |")
+print("|---|---|---|---|")
+print("\n".join(rows_s))
+print()
+print("| property-preserving change | what it is (from notes.md) | when it arrived | current checks |")
+print("|---|---|---|---|")
+print("\n".join(rows_b))
